@@ -2,6 +2,7 @@ import IstioModel.Common.Wire
 import IstioModel.C12.Spec
 import IstioModel.C12.VHosts
 import IstioModel.C12.MeshSpec
+import IstioModel.C12.Gateway
 
 /-! Line-protocol driver for C12 (streams `routes`, `requests`, `vhosts`). See harness/c12. -/
 namespace IstioModel.C12
@@ -109,6 +110,7 @@ def showDecision : Decision → String
   | .direct s b => "dr:" ++ toString s ++ "!" ++ showBody b
   | .invalid => "invalid"
   | .notFound => "404"
+  | .tlsRedirect => "tls-redirect"
 
 /-! ### state -/
 
@@ -118,6 +120,10 @@ structure DState where
   vs : VirtualService := {}
   vh : VHDriver := {}
   mesh : Mesh := {}
+  gw : Gateway := {}
+  gvss : List GwVS := []
+  gwRoute : String := ""
+  gwBuilt : Bool := false
 
 /-- The opaque regex semantics for one request: the (regex, subject) pairs Go's RE2 engine accepts,
     carried on the `req` line. -/
@@ -208,6 +214,31 @@ def stepD (d : DState) (toks : List String) : DState × String :=
     let l := if vss == "-" then [] else (vss.splitOn ";")
     let named := (List.range l.length).zip l |>.map (fun p => ("vs" ++ toString p.1, decList p.2))
     (d, encList (selectVS (decList svcs) named))
+  | ["tls", b] => ({ d with ctx := { d.ctx with isTLS := tokBool b } }, "ok")
+  | ["gsvc", h, _ns, ports] =>
+    ({ d with ctx := { d.ctx with services := d.ctx.services ++ [{ host := dec h, ports := (decList ports).map String.toNat! }] },
+              gwBuilt := false }, "ok")
+  | ["gateway", name, ns, _sel] => ({ d with gw := { name := dec name, ns := dec ns, servers := [] }, gwBuilt := false }, "ok")
+  | ["server", port, proto, pname, hosts, tls, redirect] =>
+    let https := proto == "HTTPS"
+    let sv : GwServer := { port := port.toNat!, https := https, portName := dec pname, hosts := decList hosts,
+                           hasTLS := tokBool tls || https, redirect := tokBool redirect && !https }
+    ({ d with gw := { d.gw with servers := d.gw.servers ++ [sv] }, gwBuilt := false }, "ok")
+  | ["gvs", gws] =>
+    if d.vs.http.isEmpty || d.gvss.any (fun v => v.vs.name == d.vs.name) then (d, "ok")
+    else ({ d with gvss := d.gvss ++ [{ vs := d.vs, gateways := decList gws }], gwBuilt := false }, "ok")
+  | ["grds", ns, labels, rn] =>
+    ({ d with ctx := { d.ctx with proxyNamespace := dec ns, proxyLabels := decPairs labels },
+              gwRoute := dec rn, gwBuilt := true }, "ok")
+  | "greq" :: f =>
+    match decReq f with
+    | none => (d, "bad-op")
+    | some (req, re) =>
+      if !d.gwBuilt then (d, "no-grds") else
+      -- the model of buildGatewayHTTPRouteConfig under the Lean Envoy semantics, checked against the SPEC
+      let m := evalRouteConfig re (gwVHosts d.ctx d.gw d.gvss d.gwRoute) req
+      let sp := gwSpec re d.ctx d.gw d.gvss d.gwRoute req
+      (d, showDecision m ++ (if sp == m then "" else " !spec:" ++ showDecision sp))
   | ["msvc", h, ns, ports, addr] =>
     let ps := (decList ports).map String.toNat!
     ({ d with mesh := { d.mesh with svcs := d.mesh.svcs ++ [{ host := dec h, ns := dec ns, ports := ps, addr := dec addr }], built := false },
